@@ -48,7 +48,7 @@ func init() {
 			"@fp.Json structs: omitempty is demanded on unnamed pointer/slice/map/interface/func/chan fields and Option fields, its absence on numeric/bool/array/struct/named non-nilable fields; for string fields (README shows omitempty, the statement says 'nilable') and named slice types the twin is compared on non-empty values only",
 			"@fp.Json structs: fields whose name starts with _ are not part of the Mutable type's encoding and are left out of the round trip; embedded fields, about whose tag the statement is silent, are compared through AsMutable() and through a hand-written literal of the generated Mutable type holding the same field values (law Marshal/Mutable-literal), not through the independent twin",
 			"@fp.Json structs: every embedded form carries a non-zero value; the round trip is demanded of a struct value unless it holds a value that does not survive its own encoding (unexported content of an embedded unexported type, a non-nil value of a non-empty interface type) - census RoundTrip/skipped-value-not-faithfully-encodable",
-			"@fp.Json structs: a struct shape whose generated code does not compile is C07's finding and is skipped here (census skipped-does-not-compile(C07)); if the generated code compiles but the law test does not, because a member README documents for @fp.Value+@fp.Json is missing, that is reported as law/Json-members/<shape>",
+			"@fp.Json structs: a struct shape whose generated code does not compile, or on which gombok crashes, is C07's finding and is skipped here (census skipped-does-not-compile(C07), skipped-generator-crash(C07)); if the generated code compiles but the law test does not, because a member README documents for @fp.Value+@fp.Json is missing, that is reported as law/Json-members/<shape>",
 			"@fp.Json structs: for a struct target 'unchanged on error' is checked on the whole struct: the generated UnmarshalJSON decodes into a Mutable copy and assigns only on success",
 		)
 		r.Extra["json_struct_bounds"] = map[string]any{
